@@ -338,8 +338,13 @@ func genRTConfig(t *rapid.T, withCreds bool) RTConfig {
 	c.Localhost = rapid.SampledFrom([]string{"allow", "allow", "direct"}).Draw(t, "localhost")
 	c.Retries = rapid.Bool().Draw(t, "retries")
 	nr := rapid.SampledFrom([]int{0, 0, 1, 1, 2, 3}).Draw(t, "nct")
+	prevSrc := ""
 	for i := 0; i < nr; i++ {
 		src := rapid.SampledFrom([]string{"P", "Q", "T", "S", "OA", "OB", "OL", "D"}).Draw(t, "ctsrc")
+		if i > 0 && rapid.Bool().Draw(t, "ctsamesrc") {
+			src = prevSrc // overlapping rules for one source (wildcard and exact, either order): the first that matches wins
+		}
+		prevSrc = src
 		srcHost := "@" + src + ".host"
 		switch src {
 		case "OA":
